@@ -357,6 +357,80 @@ theorem scheduleP_mutual_exclusion (proc : Nat → Nat) (P : Params) (tbl0 : Nat
   exact mutual_exclusion_any_proc proc P tbl0 pk hcul h0 hb s
     (scheduleP_reachable proc P tbl0 n sched _ .init) t u ht hu
 
+/-! ### the clean-up before the lock -/
+
+/-- the clean-up SetupNewUser runs before PasswdLock (tryCleanUser and what it calls) does not write the
+id index: no slot joins the free chain outside the lock (regenerated from the source on every run). -/
+theorem source_clean_leaves_index : sourceCleanWritesIndex = false := by decide
+
+/-- the extraction is not vacuous: the clean-up reaches killUser and the zero-record write, takes no lock
+itself, and SetupNewUser calls it before PasswdLock. -/
+theorem source_clean_wellformed :
+    wellFormedClean Gen.Reg.cleanUserCalls = true ∧ cleanBeforeLockOf Gen.Reg.setupNewUserCalls = true := by decide
+
+/-- in the source's order the tear-down never changes the index … -/
+theorem clean_source_order_keeps_index (s : Sys) (v : Nat) :
+    (cleanBegin false s v).table = s.table ∧ (cleanEnd s v).table = s.table := ⟨rfl, rfl⟩
+
+/-- … so the slot of the expired account is never handed to a registration: the slot search returns
+empty slots only, and the slot still holds the old id. -/
+theorem expired_slot_not_picked (P : Params) (pk : PickOK P) (s : Sys) (v : Nat) (h : s.table v ≠ none) :
+    P.pick (cleanEnd (cleanBegin false s v) v).table ≠ some v := by
+  intro e
+  exact h (pk.sound _ _ e).2
+
+def runXSteps (P : Params) (unindex : Bool) (v : Nat) : List (XAct × Nat) → XSys → Option XSys
+  | [], x => some x
+  | (a, t) :: r, x => (xstep P unindex v x a t).bind (runXSteps P unindex v r)
+
+theorem runXSteps_reachable (P : Params) (unindex : Bool) (v : Nat) (tbl0 : Nat → Option Nat) :
+    ∀ (l : List (XAct × Nat)) (x x' : XSys),
+    ReachableX P unindex v tbl0 x → runXSteps P unindex v l x = some x' → ReachableX P unindex v tbl0 x' := by
+  intro l
+  induction l with
+  | nil => intro x x' r e; simp [runXSteps] at e; subst e; exact r
+  | cons at_ r ih =>
+    intro x x' hx e
+    obtain ⟨a, t⟩ := at_
+    simp only [runXSteps] at e
+    cases hs : xstep P unindex v x a t with
+    | none => rw [hs] at e; simp at e
+    | some x1 => rw [hs] at e; exact ih x1 x' (.step a t hx hs) e
+
+/-- a full table of two accounts, slot 1 expirable; thread 0 (the cleaner) and thread 1 register different ids. -/
+def cleanParams : Params :=
+  { cap := 2, idOf := fun t => 7 + t, pick := pickLowest 2, checkUnderLock := true }
+def cleanTable : Nat → Option Nat := fun k => if k < 2 then some (10 + k) else none
+
+/-- cleaner: check, enter the tear-down; racer: check, lock, re-check, pick, setUserID, write, unlock; cleaner: zero record. -/
+def cleanWitness : List (XAct × Nat) :=
+  [(.reg, 0), (.enter, 0), (.reg, 1), (.reg, 1), (.reg, 1), (.reg, 1), (.reg, 1), (.reg, 1), (.reg, 1), (.leave, 0)]
+
+/-- the broken order — the id leaves the index FIRST, the record is zeroed after the home-directory work —
+loses a success: a registration that ran in between reported success for slot 1, the index holds its id
+there, .PASSWDS holds nothing: the last clause of the property fails. -/
+theorem unindex_first_loses_success :
+    ∃ x, ReachableX cleanParams true 1 cleanTable x ∧
+      x.sys.pc 1 = .done (.ok 1) ∧ x.sys.table 1 = some 8 ∧ x.sys.disk 1 = none := by
+  have e : ∃ x, runXSteps cleanParams true 1 cleanWitness { sys := init cleanTable, kill := fun _ => false } = some x ∧
+      x.sys.pc 1 = .done (.ok 1) ∧ x.sys.table 1 = some 8 ∧ x.sys.disk 1 = none := by
+    simp [runXSteps, cleanWitness, xstep, step, init, cleanParams, cleanTable, hasId, hasEmpty, cleanBegin, cleanEnd,
+      setPc, setSlot, pickLowest, List.range, List.range.loop, Option.bind]
+  obtain ⟨x, hx, h1, h2, h3⟩ := e
+  exact ⟨x, runXSteps_reachable _ _ _ _ _ _ _ .init hx, h1, h2, h3⟩
+
+/-- the same schedule in the source's order: the racer finds no empty slot and is refused; nothing is lost. -/
+example : ∃ x, ReachableX cleanParams false 1 cleanTable x ∧ x.sys.pc 1 = .done .noSlot ∧
+    x.sys.table 1 = some 11 ∧ x.sys.disk 1 = none := by
+  have e : ∃ x, runXSteps cleanParams false 1
+      [(.reg, 0), (.enter, 0), (.reg, 1), (.reg, 1), (.reg, 1), (.reg, 1), (.reg, 1), (.leave, 0)]
+      { sys := init cleanTable, kill := fun _ => false } = some x ∧ x.sys.pc 1 = .done .noSlot ∧
+      x.sys.table 1 = some 11 ∧ x.sys.disk 1 = none := by
+    simp [runXSteps, xstep, step, init, cleanParams, cleanTable, hasId, hasEmpty, cleanBegin, cleanEnd,
+      setPc, setSlot, pickLowest, List.range, List.range.loop, Option.bind]
+  obtain ⟨x, hx, h⟩ := e
+  exact ⟨x, runXSteps_reachable _ _ _ _ _ _ _ .init hx, h⟩
+
 /-- the slot search the driver uses satisfies the assumption made on `pick`. -/
 theorem pickLowest_ok (cap : Nat) (idOf : Nat → Nat) (b : Bool) :
     PickOK { cap := cap, idOf := idOf, pick := pickLowest cap, checkUnderLock := b } where
